@@ -40,6 +40,13 @@ pub struct Graph {
     pub unreadable: Vec<String>,
     pub include_dir: Option<String>,
     pub root: usize,
+    /// files (indices, never the root) that do NOT exist on disk at the moment
+    #[serde(default)]
+    pub hidden: Vec<usize>,
+    /// if set: after the first selection of the root the disk changes so that exactly these
+    /// files are missing, and the root is selected AGAIN on the same long-lived host
+    #[serde(default)]
+    pub second_hidden: Option<Vec<usize>>,
 }
 
 fn parent_of(path: &str) -> &str {
@@ -74,11 +81,14 @@ impl Graph {
     }
 
     pub fn disk(&self) -> BTreeMap<PathBuf, String> {
-        (0..self.files.len()).map(|i| (PathBuf::from(&self.files[i].path), self.render(i).0)).collect()
+        (0..self.files.len())
+            .filter(|i| !self.hidden.contains(i))
+            .map(|i| (PathBuf::from(&self.files[i].path), self.render(i).0))
+            .collect()
     }
 
     fn index_of(&self, path: &str) -> Option<usize> {
-        self.files.iter().position(|f| f.path == path)
+        self.files.iter().position(|f| f.path == path).filter(|i| !self.hidden.contains(i))
     }
 
     /// Independent model of include resolution: the includer's directory first, then
@@ -173,6 +183,15 @@ impl Graph {
             }
         }
         h.u64(self.unreadable.len() as u64);
+        for i in &self.hidden {
+            h.u64(0x1000 + *i as u64);
+        }
+        if let Some(sh) = &self.second_hidden {
+            h.u64(0x2000);
+            for i in sh {
+                h.u64(0x2000 + *i as u64);
+            }
+        }
         h.finish()
     }
 }
@@ -228,7 +247,26 @@ pub fn gen_graph(rng: &mut Rng, allow_nested: bool) -> Graph {
             files[i].includes.push(GInc { name, nested: nested_graph && rng.chance(1, 2) });
         }
     }
-    Graph { files, unreadable, include_dir, root: 0 }
+    // A third of the graphs get a second root selection after the disk changed: a file that
+    // was missing appears, or a file that was there disappears (or both).
+    let mut hidden = Vec::new();
+    let mut second_hidden = None;
+    if files.len() >= 2 && rng.chance(1, 3) {
+        let mut second = Vec::new();
+        for i in 1..files.len() {
+            match rng.below(6) {
+                0 => hidden.push(i),           // missing first, appears
+                1 => second.push(i),           // there first, disappears
+                2 if rng.chance(1, 3) => {
+                    hidden.push(i);
+                    second.push(i);            // missing all along
+                }
+                _ => {}
+            }
+        }
+        second_hidden = Some(second);
+    }
+    Graph { files, unreadable, include_dir, root: 0, hidden, second_hidden }
 }
 
 #[derive(Default, Clone, Debug)]
@@ -241,6 +279,9 @@ pub struct C16Stats {
     pub unreadable_targets: u64,
     pub include_dir_hits: u64,
     pub nested_includes: u64,
+    pub reselect: u64,
+    pub file_appeared: u64,
+    pub file_disappeared: u64,
     pub max_reads: u64,
     pub reads_total: u64,
 }
@@ -321,6 +362,53 @@ pub fn check_c16(g: &Graph, stats: &mut C16Stats) -> Vec<Violation> {
     stats.max_reads = stats.max_reads.max(reads);
     stats.reads_total += reads;
 
+    let mut host = host;
+    match judge_graph(g, &host) {
+        Ok(mut vs) => v.append(&mut vs),
+        Err(msg) => v.push(Violation::new("C16", "panic-analysing", msg)),
+    }
+    // second selection of the same root on the same host after the disk changed
+    if let Some(second) = &g.second_hidden {
+        stats.reselect += 1;
+        stats.file_appeared += g.hidden.iter().filter(|i| !second.contains(i)).count() as u64;
+        stats.file_disappeared += second.iter().filter(|i| !g.hidden.contains(i)).count() as u64;
+        let mut g2 = g.clone();
+        g2.hidden = second.clone();
+        g2.second_hidden = None;
+        let files2 = g2.disk();
+        let again = std::panic::catch_unwind(std::panic::AssertUnwindSafe(|| {
+            host.fs.files = files2.clone();
+            host.fs.reads.set(0);
+            host.texts = files2.clone();
+            let root_id = host.root;
+            host.host.set_file_content(root_id, Arc::from(root_text.as_str()));
+            host.host.set_root_file(&mut host.fs, root_id);
+        }));
+        crate::exec::take_last_panic();
+        match again {
+            Err(p) => {
+                let msg = panic_text(&p);
+                if msg.contains(MEMFS_BUDGET_MSG) {
+                    v.push(Violation::new("C16", "reselect:non-termination", "re-selecting the root exceeded the disk-read budget"));
+                } else {
+                    v.push(Violation::new("C16", "reselect:panic-selecting-root", msg));
+                }
+            }
+            Ok(()) => match judge_graph(&g2, &host) {
+                Ok(vs) => {
+                    for x in vs {
+                        v.push(Violation::new("C16", format!("reselect:{}", x.class), x.detail));
+                    }
+                }
+                Err(msg) => v.push(Violation::new("C16", "reselect:panic-analysing", msg)),
+            },
+        }
+    }
+    v
+}
+
+/// Checks (ii)-(iv) of one selected root against the independent graph model.
+fn judge_graph(g: &Graph, host: &RefHost) -> Result<Vec<Violation>, String> {
     let judged = std::panic::catch_unwind(std::panic::AssertUnwindSafe(|| {
         let mut v = Vec::new();
         // (ii) exact reachability
@@ -387,13 +475,12 @@ pub fn check_c16(g: &Graph, stats: &mut C16Stats) -> Vec<Violation> {
         v
     }));
     match judged {
-        Ok(mut vs) => v.append(&mut vs),
+        Ok(v) => Ok(v),
         Err(p) => {
             crate::exec::take_last_panic();
-            v.push(Violation::new("C16", "panic-analysing", panic_text(&p)));
+            Err(panic_text(&p))
         }
     }
-    v
 }
 
 pub fn panic_text(p: &Box<dyn std::any::Any + Send>) -> String {
